@@ -585,7 +585,7 @@ theorem build_ext (fuel parseRoot : Nat) (parseTree : Array ParseNode) (data : B
     Sat (fun r => Ext data r.1) (build parseFloat fuel parseRoot parseTree data) := by
   unfold build
   split
-  · exact ext_pushInstr (Ext.refl data) _ _ _
+  · exact ext_pushInstr (ext_pushToJumpTable (Ext.refl data) _) _ _ _
   · exact sat_bind (Q := fun _ => True) sat_true (fun _ _ => buildCore_ext parseFloat _ _ _ _)
 
 end handlers
